@@ -540,7 +540,7 @@ func execC12(t *trace.Trace, dir string) *harness.RunResult {
 func init() {
 	harness.Register(&harness.Prop{
 		ID: "C13", Engine: "E1", Level: "exploration", Gen: genC13, Exec: execC13,
-		Runs:      map[string]int{"quick": 60000, "thorough": 1000000},
+		Runs:      map[string]int{"quick": 300000, "thorough": 9000000},
 		Rule:      "seeded histories of Resize/Write (+ attribute writes, restarts) on a resizable chunked dataset of rank 1-3 with fixed and unlimited maximum dimensions; a model array is resized with the same calls; every Resize within maxdims must succeed and one beyond must fail; after the restart shape and values must equal the model; non-trivial = >= 2 successful resizes with a successful write between them and values verified after a restart; distinct by (superblock version, type, rank, op-kind sequence, filters)",
 		Technique: "deterministic simulation: seeded resize/write/restart histories vs array model over a simulated disk",
 		Assumptions: []string{"elements never written read as zero (statement); values are compared through Read(), or an error is accepted for types without a documented typed read"},
@@ -548,7 +548,7 @@ func init() {
 	})
 	harness.Register(&harness.Prop{
 		ID: "C16", Engine: "E1", Level: "exploration", Gen: genC16, Exec: execC16,
-		Runs:      map[string]int{"quick": 40000, "thorough": 800000},
+		Runs:      map[string]int{"quick": 200000, "thorough": 6000000},
 		Rule:      "seeded histories in which valid operations are interleaved with calls built to fail at each validation and capacity point (30 kinds: names, dims, chunk/max dims, datatypes, data length/type, duplicates, missing parents, attribute kinds/sizes, resize, closed handles, repeated Close); the model ignores every call that returned an error; after restart the logical dump must equal the model and later calls must behave normally; no call may panic; non-trivial = a failing call followed by a successful call and a reopened file; distinct by (superblock version, set of (op, failure kind) that failed)",
 		Technique: "deterministic simulation: seeded histories with failing calls vs model that ignores failed calls",
 		Assumptions: []string{"I/O errors are not injected here (C17 covers them); only API-level rejection and capacity exhaustion",
@@ -557,7 +557,7 @@ func init() {
 	})
 	harness.Register(&harness.Prop{
 		ID: "C10", Engine: "E1", Level: "exploration", Gen: genC10, Exec: execC10,
-		Runs:      map[string]int{"quick": 40000, "thorough": 600000},
+		Runs:      map[string]int{"quick": 100000, "thorough": 2500000},
 		Rule:      "seeded base files (1-4 datasets, attributes, groups; all superblock versions) followed by 1-5 OpenForWrite sessions of 0-10 supported operations (attribute upserts/deletes via OpenDataset, data overwrite, object creation); after each session the logical dump must equal the model with exactly that session's successful operations applied; a session without calls must leave the file byte-identical (SHA-256); non-trivial = >= 2 sessions and >= 1 successful modification; distinct by (superblock version, per-session op-kind sequence)",
 		Technique: "deterministic simulation: multi-session open-modify-close histories vs model; restart = only file bytes survive",
 		Assumptions: []string{"files written by the reference library are not used as base files in this check (library-created files only)"},
@@ -565,7 +565,7 @@ func init() {
 	})
 	harness.Register(&harness.Prop{
 		ID: "C12", Engine: "E1", Level: "exploration", Gen: genC12, Exec: execC12,
-		Runs:      map[string]int{"quick": 30000, "thorough": 300000},
+		Runs:      map[string]int{"quick": 100000, "thorough": 1500000},
 		Rule:      "seeded variable-length datasets (strings and numeric sequences; counts 1-60 quick / 1-2000 thorough; element lengths 0,1,7,8,9,4063..4081,>64KiB; bytes incl. NUL; contiguous and chunked; several datasets share collections), Close, Open; Info must report a variable-length class and the string reader must return the elements or an error; non-trivial = a vlen dataset written and the file reopened; distinct by (superblock version, types, chunking, large-element flag)",
 		Technique: "deterministic simulation: seeded vlen write/restart/read histories vs model over a simulated disk",
 		Assumptions: []string{"where no vlen reader exists an error is accepted, never different values"},
@@ -619,7 +619,7 @@ func execC05(t *trace.Trace, dir string) *harness.RunResult {
 func init() {
 	harness.Register(&harness.Prop{
 		ID: "C05", Engine: "E1", Level: "exploration", Gen: genC05, Exec: execC05,
-		Runs:      map[string]int{"quick": 30000, "thorough": 500000},
+		Runs:      map[string]int{"quick": 150000, "thorough": 4000000},
 		Rule:      "files produced by the seeded histories of C01-C04, C10, C12, C13 (all superblock versions) are closed and decoded by an independent from-the-specification decoder (sim/specdec, imports nothing from /repo): every structure in [0,filesize) and below the superblock EOF address, extents pairwise disjoint, signatures/versions/sizes/checksums consistent, decoded tree/shapes/types/element bytes/attributes/vlen elements equal to the model; non-trivial = >= 3 distinct structure kinds decoded; distinct by (superblock version, set of structure kinds, object count)",
 		Technique: "deterministic simulation histories + independent spec decoder over the closed file as oracle",
 		Assumptions: []string{"the independent decoder is the trusted base; it decodes 451 of the 543 bundled reference files without findings (the rest are deliberately corrupt or multi-file members)",
@@ -858,7 +858,7 @@ func execC04(t *trace.Trace, dir string) *harness.RunResult {
 func init() {
 	harness.Register(&harness.Prop{
 		ID: "C04", Engine: "E1", Level: "exploration", Gen: genC04, Exec: execC04,
-		Runs:      map[string]int{"quick": 6000, "thorough": 100000},
+		Runs:      map[string]int{"quick": 30000, "thorough": 900000},
 		Rule:      "seeded interleavings of {create, write, attribute write/delete, hard link, resize, create sibling} over 2-6 live objects, biased to objects that are NOT the most recently created; every prefix of the history (all prefixes up to 12 operations, every third beyond) is executed as its own run ending in Close+Open+full logical dump, and consecutive dumps are compared: an object that was not the target of the operations in between must be unchanged and the file must still open; non-trivial = >= 2 objects and a successful operation on a non-latest object; distinct by (superblock version, object count, sequence of successful op kinds)",
 		Technique: "deterministic simulation: prefix re-execution differential (restart after every prefix) with write-log attribution",
 		Assumptions: []string{"the state is only inspected after Close+Open (never while the writer is open)",
